@@ -19,13 +19,13 @@ type Meta struct {
 	Distribution map[string]int         `json:"distribution"`
 	Samples      []interface{}          `json:"samples"`
 	Shards       []string               `json:"shards"`
-	Cases        map[string]interface{} `json:"cases"`   // id -> human-readable case (for replays)
-	Direct       []DirectViolation      `json:"direct"`  // violations established by the harness itself
+	Cases        map[string]interface{} `json:"cases"`  // id -> human-readable case (for replays)
+	Direct       []DirectViolation      `json:"direct"` // violations established by the harness itself
 	Notes        []string               `json:"notes"`
 }
 
 type DirectViolation struct {
-	Key  string      `json:"key"`  // stable key (matched against known_findings.json)
+	Key  string      `json:"key"` // stable key (matched against known_findings.json)
 	What string      `json:"what"`
 	Case interface{} `json:"case"`
 }
